@@ -13,6 +13,59 @@ REALS_AXIOMS = [
 ]
 
 PROPS = {
+    "C08": dict(
+        prop_file="Properties/C08.v",
+        check_module="C08Check",
+        theorems={
+            "C08_resolve_outcomes": [],
+            "C08_resolve_direct_agrees_partial": [],
+            "C08_resolve_direct_miss_partial": [],
+            "C08_duplicate_name_rejected": [],
+            "C08_std_module_rejected": [],
+            "C08_no_main_rejected": [],
+            "C08_bad_function_name_rejected": [],
+            "C08_bad_import_rejected": [],
+            "C08_import_errors": [],
+            "C08_front_end_error": [],
+            "C08_jump_table": [],
+            "C08_call_target_meta": [],
+            "C08_function_label_at_start": [],
+            "C08_label_kept_by_card_labels": [],
+            "C08_label_kept_if_distinct": [],
+            "C08_super_depth_legacy_refuted": [],
+            "C08_import_of_xsuper_repaired": [],
+            "C08_module_import_through_super_repaired": [],
+        },
+        n_quick=320, n_thorough=3000,
+        gates=["obs.ran", "obs.err.InvalidJump", "obs.err.SuperLimitReached", "obs.err.DuplicateModule", "obs.err.NoMain",
+               "obs.err.AmbigousImport", "obs.err.BadImport", "name.absolute", "name.bare", "name.import_fn",
+               "name.import_module", "name.import_module_super", "name.relative", "name.garbage", "site.function_value",
+               "site.static_call", "caller.depth0", "caller.depth1", "caller.depth2", "import.super"],
+        rule="random module trees (depth <= 3, the same six function names reused in every module, sibling / parent / child "
+             "imports of functions and of modules with 0-3 `super.`, too many `super.`, a module called xsuper) with ONE call "
+             "site each (static Call or Function value + DynamicCall, from a function of a random module) naming its target "
+             "absolutely, barely, relatively, through a function import, through a module import, or by garbage; plus planted "
+             "static faults (no main, module named std, duplicate module, malformed / ambiguous import, invalid or duplicate "
+             "function name, small recursion limit). The crate compiles the tree and, on success, the real Vm runs it; every "
+             "generated body stores its position in the compiler's function order, its parameters, and returns a value on even "
+             "positions. Code 1: the compiler model's compile differs from the crate's output (bytecode, data, labels, variables, "
+             "trace, or error + location). Code 2: ResolveSpec.spec_resolve / static_faults (tree level, independent of the model) "
+             "disagree with the error variant or with which body ran, or parameters / return value / caller local are not as the "
+             "convention says (last argument -> first parameter; nil without Return; callee locals invisible). "
+             "non-trivial = tree with >= 2 functions; distinct = distinct case term",
+        trusted_base=COMMON_TB + [
+            "modelled, not verified: compiler.rs resolve_function / super_depth / add_function / compile_stage_2, compiler/module.rs "
+            "(into_ir_stream, flatten_module, execute_imports, is_name_valid, ensure_invariants)",
+            "the specification ResolveSpec.v is a hand-written reading of the documented lookup order",
+            "which body ran is observed through globals written by the generated bodies, on the real Vm (vm.rs), 100000-instruction budget"],
+        assumptions=[
+            "module and function names of generated trees are ASCII identifiers (module names are not validated by the compiler; "
+            "a module name containing '.' makes full names ambiguous and is outside the specification)",
+            "resolve_sound / resolve_complete are proved for the absolute and own-module rules under the hypothesis table_matches "
+            "(jump table = functions of the tree); the import rules are covered by the correspondence run only",
+            "label distinctness (32-bit handles of functions and closures pairwise distinct) is a hypothesis of the label theorems",
+        ],
+    ),
     "C10": dict(
         prop_file="Properties/C10.v",
         check_module="C10Check",
@@ -53,6 +106,282 @@ PROPS = {
             "programs with more than 16 distinct globals are generated unless VERIF_C10_MANY_GLOBALS=0 (before the fix of "
             "HandleTable::entry, A-5, the 17th global made compile hang; a hang is observed through the harness watchdog, exit code 42)",
             "bytecode shorter than 2^31 bytes, fewer than 2^32 cards per function",
+        ],
+    ),
+    "C01": dict(
+        prop_file="Properties/C01.v",
+        check_module="C01Check",
+        theorems={t: [] for t in ["C01_deterministic", "C01_fuel_monotone", "C01_eval_fuel_monotone"]},
+        n_quick=240, n_thorough=3000,
+        gen_timeout=3000,
+        gates=["ok", "globals>16", "return_in_loop", "nested_loops", "call.fn_argument", "dyncall.variable",
+               "closure.depth2", "closure.depth3", "closure.arity3", "closure.in_loop", "closure.in_submodule",
+               "closure.returned", "closure.in_array", "closure.writes_captured", "closure.loop_idiom",
+               "closure.siblings", "table.alias", "std.callback", "std.key_function", "native.call1",
+               "value.native_function", "call.via_import", "reals", "while", "for_each", "array",
+               "corpus.R-1a", "corpus.R-1b", "corpus.R-2a", "corpus.R-2b", "corpus.R-3", "corpus.R-4", "corpus.R-5"],
+        rule="the seven witness programs of findings/C01 (repaired findings R-1..R-5) first, then random WELL-SCOPED programs (RefScope.well_scoped, re-checked per case in Coq) from a kind- and "
+             "rank-directed generator: 1-5 functions plus leaf functions of arity 0-3 spread over up to four "
+             "(sub)modules with function / module / super imports, 2-24 globals, locals, if / else, while, repeat "
+             "and for-each nested to depth 2, early return from loops, function values and closures (nested <= 3, "
+             "0-3 parameters, created in loops / submodules / called functions, stored in tables, returned, passed, "
+             "called after the creating scope ended, sibling closures over one variable), tables with aliasing and "
+             "the property shorthand, arrays, the natives log1 / add2 / fail0 / call1 (re-entrant) also as native "
+             "function values, std.map / filter / any / min / max / sorted / to_array / *_by_key with script "
+             "callbacks, reals in a quarter of the programs; each program is compiled and run by the real crate in "
+             "a child process (value stack 16384, call stack 400, 400000 instructions); success or error kind, the "
+             "final globals by name as trees and the log of native calls are compared with "
+             "RefSem.eval_program; resource errors (Timeout, Stackoverflow, CallStackOverflow, OutOfMemory) are "
+             "skipped and counted; non-trivial = the program has >= 6 of the counted features; distinct = distinct "
+             "case term",
+        trusted_base=COMMON_TB + [
+            "the reference semantics RefSem.v is the specification here: a hand-written big-step evaluator over "
+            "names and cells (no stack, no indices, no bytecode); there is no model of the compiler or VM in this check",
+            "Coq's Floats.SpecFloat (SFadd, SFsub, SFmul, SFdiv, SFcompare, SFeqb) at binary64 for real arithmetic; "
+            "sf_of_Z / sf_to_i64 / Z_cmp_sf of Value.v (tied to the crate by C19)",
+            "StdlibGen.std_module: the card text of the std module as printed by the harness from "
+            "cao_lang::stdlib::standard_library() (generated file, shared with the compiler model)",
+            "the harness printer from cao_lang::compiler::Module to CardAst terms (harness/src/c16.rs) and the "
+            "conversion of run-time values to trees (harness/src/c01.rs)",
+        ],
+        assumptions=[
+            "the claim is for well_scoped programs: every operand slot holds a card yielding exactly one value; "
+            "new locals (and Array, which needs a hidden local) only directly in function / closure / Repeat / "
+            "ForEach bodies; static calls and menu natives get exactly their arity; main does not Return",
+            "globals are compared by name as sets, nil entries included (Vm::read_var_by_name answers None for a "
+            "never-assigned global wherever its slot lies, a526e90)",
+            "error KINDS are compared (the outermost variant), not payloads or traces (C15)",
+            "NaN payloads and signs are not compared (every NaN is printed as one canonical NaN)",
+            "table keys are nil, integers, strings and non-zero non-NaN reals; deeper than 6 levels a table is "
+            "printed as a cut mark on both sides",
+            "std.min / max / sorted(_by_key) work on the entries (keys and values) the table had when they were "
+            "called, whatever the key function does to the table meanwhile (662697a; was code 10)",
+            "no known classes: the former labels 10-14 (R-1..R-5) were repaired in the crate and are ordinary "
+            "violations (code 2) now; their witnesses run first in every check and must agree with RefSem",
+            "the simulation theorem compile_correct against the compiler and VM models is not proved yet; its "
+            "statement is in Properties/C01.v",
+        ],
+    ),
+    "C09": dict(
+        prop_file="Properties/C09.v",
+        check_module="C09Check",
+        theorems={t: [] for t in [
+            "C09_sorted_permutation", "C09_sorted_ordered", "C09_sorted_stable", "C09_sort_order_is_strict_weak",
+            "C09_min_order_is_strict_weak", "C09_max_order_is_strict_weak", "C09_best_none", "C09_best_is_an_entry",
+            "C09_best_is_first_best", "C09_best_is_optimal", "C09_filter_is_filter", "C09_map_keys", "C09_map_nth",
+            "C09_any_some", "C09_any_none", "C09_to_array_keys", "C09_to_array_values",
+            "C09_native_sorted", "C09_native_min_max", "C09_native_to_array", "C09_native_passthrough",
+            "C09_sorted_by_key_contract", "C09_min_max_by_key_contract", "C09_sorts_agree", "C09_std_filter", "C09_std_map", "C09_std_any", "C09_std_inputs_unchanged",
+            "C09_std_to_array", "C09_std_sorted_by_key", "C09_std_min_max_by_key", "C09_row_to_value_pure",
+            "C09_std_sorted", "C09_std_min_max", "C09_std_passthrough",
+            "C09_tree_orderings_agree_on_samples"]},
+        n_quick=300, n_thorough=4000,
+        gen_timeout=3000,
+        gates=["fn.filter", "fn.map", "fn.any", "fn.min", "fn.max", "fn.min_by_key", "fn.max_by_key", "fn.sorted",
+               "fn.sorted_by_key", "fn.to_array", "size.0", "size.1", "size.2", "size.3-10", "size.11-40",
+               "val.int", "val.real", "val.string", "val.nil", "val.table", "key.int", "key.real", "key.string",
+               "key.nil", "dup_values", "ties", "mixed_int_real_equal", "nan_key", "negzero_key",
+               "cb.script_fn", "cb.closure_counter", "cb.allocates", "cb.nested_std", "cb.mutates_input",
+               "cb.arity1", "cb.arity2", "cb.arity3", "input.non_table", "input.host_built", "input.host_rooted",
+               "input.insert_value", "lowmem.host_rooted", "lowmem.insert_value", "corpus.F-1a", "corpus.F-1b",
+               "stream.lowmem", "lowmem.ok", "lowmem.gc", "obs.ok", "predict", "spec_only"],
+        rule="the two witnesses of the repaired finding F-1 (findings/C09) first, then one generated SCRIPT per case "
+             "that calls ONE std function (filter, map, any, min, max, min_by_key, "
+             "max_by_key, sorted, sorted_by_key, to_array) ONCE on one input: tables of 0, 1, 2 .. 40 entries built by "
+             "the script or by the host (through a native: Vm::insert_value, or init_table / init_string / insert with "
+             "the guards held; the host's table travels in the case and the script must receive exactly it), integer / real / string / nil keys, "
+             "integer / real (NaN, -0.0, infinities, 2^53+1 next to 2^53 as a real) / string / nil / nested-table "
+             "values from small pools (duplicates, ties, numerically equal keys of different kinds), non-table inputs; "
+             "callbacks from a menu of script functions of arity 1-3 (truthiness, comparisons, constants, arithmetic "
+             "keys, int-or-equal-real keys), closures that capture and count, callbacks that allocate strings and "
+             "tables, callbacks that call the library again, key functions that append to / pop from / overwrite the "
+             "input table (min/max/sorted_by_key only: the natives work on the entries present at call time); the "
+             "callback given to the library is a wrapper that calls the real one and logs arguments and result "
+             "through the native log1; the input is logged just before the call; result and input are read back as "
+             "owned trees after the run; every third script and every script with a host-built input runs a second "
+             "time under a memory limit of 50-200 % of what the first run allocated (collections inside the "
+             "callbacks and inside the host's table construction); every run in a child process (a crash is an observation). "
+             "Code 2: the result differs from StdSpec applied to the logged input with cb = the logged calls, or "
+             "the sequence of callback invocations is not 'every entry once, in table order' (any: up to the first "
+             "truthy one), or the input changed though the callback does not touch it, or the script did not receive "
+             "the table the host built, or the run crashed; no known classes (F-1, Vm::insert_value unrooted, was "
+             "repaired by a1ac5c5 and is an ordinary violation if it comes back); "
+             "code 1: the whole run (kind, globals, log) differs from RefSem.eval_program (scripts with script-built "
+             "tables and callbacks that do not modify the input). Resource errors are skipped and counted. "
+             "non-trivial = input with >= 2 entries; distinct = distinct case term",
+        trusted_base=COMMON_TB + [
+            "the specification StdSpec.v is a hand-written reading of the documented contract of stdlib.rs "
+            "(sort_key_cmp for the order of sorted; < and > of the language, first strict best, for min / max)",
+            "the reference semantics RefSem.v (eval_native for __min/__max/__sort/__to_array; ForEach, DynamicCall, "
+            "SetProperty, Return for the card programs) and StdlibGen.std_module, the card text of std as printed by "
+            "the harness from cao_lang::stdlib::standard_library()",
+            "the tree orderings tr_cmp / tr_sort_lt of C09Check.v are a transcription of v_cmp / sort_lt to owned "
+            "trees (not proved equal to them); Coq's Floats.SpecFloat (SFcompare, SFeqb) and Z_cmp_sf of Value.v",
+            "the script protocol: the wrapper functions built by harness/src/c09.rs log every invocation (arguments, "
+            "result) through the native log1 and the checker reads the flat log back positionally",
+            "the harness printer from cao_lang::compiler::Module to CardAst terms (harness/src/c16.rs) and the "
+            "conversion of run-time values to trees (harness/src/c01.rs)",
+        ],
+        assumptions=[
+            "callbacks in the theorems are PURE: called with any arguments in any state they return the oracle's "
+            "value and leave heap, globals and host log unchanged (they may create variables and closures); the "
+            "check (cb = the logged calls) also covers callbacks with state, allocation and re-entry",
+            "theorems C09_std_* and C09_native_* are about the reference semantics and the card text of std; the "
+            "compiler and VM are tied to the reference semantics by C01's check and to the specification by this "
+            "check, not by a proof",
+            "ordered / stable / first-best are stated for comparisons that are strict weak orders on the keys that "
+            "occur: proved for sorted's order on all keys whose reals are valid binary64 values and for < / > on "
+            "numbers (non-NaN); min / max over keys that mix nil, strings and tables use a partial order and only "
+            "'an entry of the table, chosen as the first strict improvement' holds",
+            "table keys are nil, integers, strings and non-zero non-NaN reals; trees deeper than 6 levels are cut on "
+            "both sides; NaN payloads are not compared; function values compare as one opaque mark",
+            "key functions that modify the table being processed: the specification is applied to the entries "
+            "present at call time (behaviour since 662697a, which RefSem now models too); the comparison with RefSem "
+            "is still restricted to key functions that do not modify the input",
+        ],
+    ),
+    "C15": dict(
+        prop_file="Properties/C15.v",
+        check_module="C15Check",
+        theorems={
+            "C15_emit_index_sound": [],
+            "C15_compile_error_loc": [],
+            "C15_repeat_count_index_resolves": [],
+            "C15_loop_error_at": [],
+            "C15_step_frames_ok": [],
+            "C15_error_trace_shape": [],
+            "C15_nested_error_keeps_payload_only": [],
+            "C15_reported_head_is_compiler_entry": [],
+            "C15_error_head_resolves": [],
+        },
+        n_quick=300, n_thorough=3000,
+        gen_timeout=3000,
+        gates=["stream.scenario", "stream.planted", "stream.unplanted", "stream.compile",
+               "fault.setprop_nontable", "fault.dyncall_nonfunction", "fault.missing_native", "fault.missing_global",
+               "fault.native_error", "fault.native_conversion", "fault.value_stack", "fault.call_stack",
+               "fault.timeout_loop", "fault.foreach_nontable",
+               "hop.call_absolute", "hop.call_bare", "hop.call_imported_function", "hop.call_imported_module",
+               "hop.dyncall_function_value", "hop.dyncall_variable", "hop.closure_inline", "hop.closure_variable",
+               "hop.std_map", "hop.native_call1", "hop.native_rb1", "hop.std_sorted_by_key",
+               "wrap.repeat.body", "wrap.while.body", "wrap.foreach.body", "wrap.if_else.else", "wrap.array.item",
+               "planted.in_submodule", "planted.in_called_function", "planted.depth.6", "head.in_submodule",
+               "head.in_std", "trace.ns_depth>=2", "trace.through_std", "trace.len.>20", "trace.len.4-6",
+               "base.kind.vmgen", "base.kind.corpus", "base.kind.progs", "base.kind.chain",
+               "unplanted.timeout", "unplanted.own_error",
+               "cfault.EmptySetVar", "cfault.EmptyClosureArg", "cfault.BadCall", "cfault.BadImportedCall",
+               "cfault.TooManySuper", "cfault.TooManyLocals", "cfault.TooManyUpvalues", "cfault.BadImport",
+               "cplanted.in_submodule", "witness.nested_trace_dropped", "witness.function_level_head"],
+        rule="four streams, every case run on the real crate (compile + Vm::run with the native menu of the VM "
+             "stream), every trace entry resolved through the crate's own Module::get_card (namespace -> submodule "
+             "path, `std` -> stdlib::standard_library(), then CardIndex) and cards identified by CardId tags: "
+             "(scenario, 40%) generated module trees (submodules to depth 3, function / module imports, shuffled "
+             "function tables) with a call chain main -> f1 .. fk, k <= 5, hops = Call by absolute / bare / imported "
+             "name, DynamicCall of a function value / variable, inline and stored closures, std.map / filter / any, "
+             "native callbacks call0 / call1 / rb1 / std.sorted_by_key / std.min_by_key; every hop and the fault nested "
+             "0-3 levels in 24 kinds of control-flow / expression wrappers; exactly one fault (15 kinds: wrong-type "
+             "operand x7, missing native, missing global, native error, native conversion error, value-stack "
+             "exhaustion x2, unbounded recursion, endless loop under a small budget); the whole expected trace is "
+             "known. (planted, 30%) programs that run to completion (VM corpus, progs.rs, vmgen, modgen, fault-free "
+             "chains) with Composite[marker, fault, original] planted at a random card position; the marker in the host "
+             "log tells whether the position was reached; chain checked for consistency. (unplanted, 12%) programs that "
+             "fail by themselves or under budgets 1..300. (compile, 18%) modules with one planted compile error (empty "
+             "variable in SetVar / ReadVar / SetGlobalVar / closure argument / ForEach / Repeat, unresolvable Call / "
+             "Function / imported name, too many `super.`, 256th local, 256th upvalue, bad import). Code 1: "
+             "Compiler.compile + Vm.run on the module term predict another payload or trace, or CardEdit.get_card "
+             "another card kind, or a trace entry of the model's own output does not resolve / keys not increasing. "
+             "Code 2 (observations + planted data only): trace[0] resolves to the planted card (by position and by "
+             "CardId), later entries are the expected call cards innermost first (scenario) or call cards that call "
+             "the function of the entry before (others), optional final entry in main; compile error loc = planted card. "
+             "Non-trivial = trace of >= 2 entries or a compile case; distinct = distinct case term",
+        trusted_base=COMMON_TB + [
+            "modelled, not verified: compiler.rs (trace bookkeeping), vm.rs (_run, payload_to_error, run_function), "
+            "vm/instr_execution.rs, compiler/module.rs (get_card), compiler/card.rs (get_child); the models are "
+            "Compiler.v, Vm.v, CardEdit.v; C15Link.to_vm numbers the Trace values by their position in the sorted trace list",
+            "the harness's resolver (namespace -> submodule by first name match, `std` -> stdlib) and its CardId tags; "
+            "Flocq binary64 (VmFloat.v) is used by the checker only",
+        ],
+        assumptions=[
+            "PARTIAL: error_trace_shape is proved for the VM model over arbitrary programs; that a program produced by "
+            "`compile m` has, at the address of every card-emitted instruction, the location of the emitting card is "
+            "proved per function (C15_emit_index_sound: every entry recorded while a function's cards are compiled "
+            "resolves to a card of that function, right namespace) - NOT proved: that the entry at a given address "
+            "is the one of the card that emitted that instruction (only: of a card of the function), and the lifting from "
+            "one function to `compile m` (flatten_module: namespace / function index of the IR stream vs. the module "
+            "tree); both are checked on every generated case (exact trace comparison, trace_resolves_of)",
+            "that each frame source other than 0 / label positions is the CallFunction of a Call / DynamicCall card is "
+            "checked (oracle), not proved",
+            "natives are the fixed menu of Vm.v; errors raised inside a nested run (native callbacks) surface at the "
+            "native's call site (known class 12); OutOfMemory is not in the stream (no allocator in Vm.v)",
+        ],
+    ),
+    "C04": dict(
+        prop_file="Properties/C04.v",
+        check_module="C04Check",
+        theorems={t: [] for t in [
+            "C04_compile_total", "C04_compile_never_diverges", "C04_super_depth_total", "C04_patch_code_complete",
+            "C04_zero_name_repaired", "C04_zero_path_repaired", "C04_zero_label_repaired",
+            "C04_run_total", "C04_step_no_abort_partial", "C04_step_pre_entry_state", "C04_invalid_opcode_aborts",
+            "C04_empty_call_stack_aborts", "C04_full_value_stack_is_stackoverflow", "C04_full_value_stack_scalar_nil",
+            "C04_full_call_stack_is_callstackoverflow", "C04_full_call_stack_call_function",
+            "C04_call_non_function_is_invalid_argument", "C04_get_property_wrong_type", "C04_set_property_wrong_type",
+            "C04_integer_overflow_wraps", "C04_integer_overflow_witness", "C04_budget_zero_is_timeout",
+            "C04_budget_zero_dispatches_nothing",
+        ]},
+        n_quick=200, n_thorough=2000,
+        gen_timeout=3000,
+        gates=["fmt.json", "fmt.yaml", "fmt.deep", "parse.ok", "parse.err", "compile.ok", "model.applies",
+               "compile.err.ENoMain", "compile.err.EBadFunctionName", "compile.err.EBadImport", "compile.err.EInvalidJump",
+               "compile.err.EEmptyVariable", "compile.err.ETooManyLocals", "compile.err.ETooManyUpvalues",
+               "compile.err.ERecursionLimitReached", "compile.err.EDuplicateModule", "compile.err.ESuperLimitReached",
+               "run.ok", "run.err.Timeout", "run.err.Stackoverflow", "run.err.CallStackOverflow", "run.err.OutOfMemory",
+               "run.err.MissingArgument", "run.err.InvalidArgument", "run.err.ProcedureNotFound",
+               "cfg.stack=1", "cfg.stack=2", "cfg.calls=1", "cfg.calls=2", "cfg.mem<=64", "cfg.budget=0", "cfg.budget=1",
+               "cfg.budget=2", "cfg.twice", "cyclic", "cyclic.build_only", "deep.built", "deep.loader.json",
+               "deep.loader.yaml", "text.deep_brackets", "text.deep_cards", "text.yaml_special", "text.mut.truncate",
+               "text.mut.byte", "text.mut.name", "text.mut.number", "text.soup", "text.skeleton",
+               "front.arity_mismatch", "front.import_self", "front.import_cycle", "front.name.function",
+               "front.name.variable", "front.no_main", "front.empty_main", "extreme.many_cards", "extreme.long_string",
+               "extreme.many_locals", "extreme.many_globals", "extreme.upvalues_over", "extreme.many_functions",
+               "extreme.module_depth", "find.zero_name.global", "find.zero_path.card", "find.zero_label.closure",
+               "prog.vmgen", "prog.progs", "prog.modgen"],
+        rule="totality stream; EVERY implementation run (loader, compile, VM construction, run, second run, drop) happens in a "
+             "child process `cao-verif-harness c04-worker <case file>` of the same build profile (debug in the quick tier, "
+             "debug and release in the thorough tier), at most 12 at a time, wall-clock limit 60 s per child; the observation is "
+             "the last stage entered, the value each finished stage returned, and how the child ended (exit 0 / panic exit "
+             "101 / signal / watchdog). Inputs: (a) texts through serde_json::from_str::<Module> and serde_yaml::from_str: "
+             "serialisations of random modules, mutated (truncation, byte flips, deleted / duplicated spans, names replaced by "
+             "empty / dotted / `super` / `std` / non-ASCII / NUL / 10 000-byte names, numbers replaced by out-of-range ones), "
+             "random token soup over the format's vocabulary, module skeletons with random content, brackets and cards "
+             "nested 10 .. 2 000 000 deep (YAML: 10 000), YAML anchors / aliases / merge keys / tags; every card kind nested "
+             "30 .. 1000 levels through both loaders (they refuse between 55 and 62 levels) and, built inside the worker, 150 "
+             ".. 100 000 levels (outside the domain, class 14); 26 strange names in 7 positions; arities that do not match, "
+             "empty functions, missing main, self-referencing and cyclic imports; 66 000 cards, 1 500 (6 000) locals / "
+             "globals / functions / submodules / imports / arguments, 255+ locals and upvalues, 1 MiB strings, 5 000-step "
+             "property chains, module depth around the recursion limit, recursion limits 0 .. u32::MAX; the zero-handle "
+             "witnesses. (b) compiled programs of vmgen's corpus, progs.rs, random vmgen and modgen modules under "
+             "RuntimeData::new(memory_limit in 0 .. 1 GiB incl. 64, stack_size in 0 .. 1024 incl. 1 and 2, call_stack_size in "
+             "0 .. 1024 incl. 1 and 2) with budgets 0, 1, 2, 3, .. 200 000, optionally run twice on the same VM; programs that "
+             "build self-referencing tables and compare / hash them (A-37) run only in children. Code 2 = the child did not "
+             "end normally, or budget 0 did not give Timeout / call-stack size 0 did not give CallStackOverflow; code 1 = "
+             "Compiler.compile predicts another outcome (Ok, or error payload with fields and location) for the module the "
+             "loader returned (ASCII function names, literals in range, printed term <= 40 000 characters); non-trivial = "
+             "the loader accepted the input; distinct = distinct case term",
+        trusted_base=COMMON_TB + [
+            "modelled, not verified: compiler.rs, compiler/module.rs (Compiler.v, as for C10), vm.rs, vm/instr_execution.rs "
+            "(Vm.v, as for VM / C03); the VM model has fixed stack sizes 256 / 256 and no allocator, so configurations are "
+            "judged by the process-level oracle only",
+            "the operating system's process isolation, exit statuses and signals; rustc's panic = exit code 101 and "
+            "stack-overflow handler (SIGABRT); serde_json / serde_yaml as the loaders",
+        ],
+        assumptions=[
+            "compile_total holds on C04Proofs.module_in_domain (decidable): estimated output below 2^32 bytes (the former "
+            "conditions on zero handles went with 3f22e7c: N-C04-1..3 repaired, C04_zero_*_repaired)",
+            "PARTIAL run_no_abort: one step, 37 of 47 opcodes, under step_pre; instructions that look keys up in tables, "
+            "natives and the upvalue instructions are not covered (C04VmProofs.v header lists every abort site of Vm.v)",
+            "native stack exhaustion and aborts are runtime behaviour: observed per child process, not derivable from the "
+            "models (DESIGN section 9); card nesting deeper than the loaders admit is outside the property (class 14)",
+            "serde_yaml needs time quadratic in the nesting depth before it reports its recursion limit (100 000 open "
+            "brackets: about a minute); the stream keeps YAML nesting at or below 10 000",
         ],
     ),
     "C14": dict(
@@ -142,7 +471,8 @@ PROPS = {
         theorems={t: [] for t in [
             "C12_every_history", "C12_get", "C12_insert", "C12_insert_other_keys", "C12_remove",
             "C12_remove_other_keys", "C12_get_mut", "C12_entry", "C12_adjust_capacity", "C12_iter_len",
-            "C12_alloc_failure_unchanged", "C12_load_leaves_free_slot"]},
+            "C12_alloc_failure_unchanged", "C12_load_leaves_free_slot", "C12_conservation",
+            "C12_step_conserves"]},
         n_quick=300, n_thorough=4000,
         gates=["hm.grew>2", "hm.removed_present", "hm.alloc_failed", "hm.mode=hint", "hm.mode=hash",
                "hm.zero_hash_key_in_universe", "hm.get_mut_written"],
@@ -227,7 +557,8 @@ PROPS = {
         check_module="C13Check",
         theorems={t: [] for t in [
             "C13_every_history", "C13_get", "C13_insert", "C13_entry", "C13_remove",
-            "C13_other_handles_after_remove", "C13_iter_len", "C13_mask_is_mod"]},
+            "C13_other_handles_after_remove", "C13_iter_len", "C13_mask_is_mod", "C13_conservation",
+            "C13_step_conserves", "C13_constructed_handles_nonzero"]},
         n_quick=300, n_thorough=4000,
         gates=["ht.grew>1", "ht.removed_present", "ht.alloc_failed", "ht.entry_new>16", "ht.index_absent",
                "ht.cap0_not_pow2", "ht.keys=colliding", "ht.keys=small", "ht.keys=random"],
